@@ -181,6 +181,8 @@ pub fn defect_line(ch: &mut Choices) -> Defect {
                 "li a0",
                 "lw a0",
                 "sw a0",
+                "sw t0, counter",
+                "sb a0, buf",
                 "la a0",
                 "mv a0",
                 "jal",
